@@ -329,6 +329,216 @@ Proof.
   rewrite E. unfold tc_uncached_calls. rewrite concat_map. reflexivity.
 Qed.
 
+(* ------------------------------------------------------------------------------------- *)
+(* the design space around the input check and the per-phase clearing (seeded defect g)    *)
+(* ------------------------------------------------------------------------------------- *)
+Definition tcp_same_slot (e : tc_entry) (a : tc_arg) (idx : nat) : Prop :=
+  k_kid (e_key e) = a_kid a /\ k_idx (e_key e) = idx /\ k_var (e_key e) = a_var a.
+
+Lemma tcp_search_some_gen : forall chk n pids a idx c i e,
+  tc_search chk n pids a idx c = Some (i, e) ->
+  i < n /\ In e c /\ k_pid (e_key e) = nth i pids 0 /\ tcp_same_slot e a idx /\ (chk = true -> e_in e = a_val a).
+Proof.
+  induction n as [|n IH]; intros pids a idx c i e H; cbn [tc_search] in H; [discriminate|].
+  destruct (tc_find (tc_mkkey a idx (nth n pids 0)) c) as [e0|] eqn:F.
+  - destruct (negb chk || bytes_eqb (e_in e0) (a_val a)) eqn:B.
+    + injection H as <- <-. apply tcp_find_some in F as [F1 F2].
+      unfold tcp_same_slot. rewrite F2. cbn [tc_mkkey k_kid k_idx k_var k_pid].
+      split; [lia|]. split; [exact F1|]. split; [reflexivity|]. split; [auto|].
+      intros ->. cbn in B. apply bytes_eqb_eq in B. exact B.
+    + apply IH in H. intuition lia.
+  - apply IH in H. intuition lia.
+Qed.
+
+(* every entry of the cache after the fill loop is an old one or was written for this argument *)
+Lemma tcp_fill_entries (pids : list nat) (a : tc_arg) (idx : nat) : forall rest i v es st v' es' st',
+  tc_fill T tf i rest pids a idx v es st = (v', es', st') ->
+  forall e, In e (st_cache st') -> In e (st_cache st) \/ (e_in e = a_val a /\ tcp_same_slot e a idx).
+Proof.
+  induction rest as [|t rest IH]; intros i v es st v' es' st' H e He; cbn [tc_fill] in H.
+  - injection H as <- <- <-. left. exact He.
+  - destruct (t_err (tf t v)).
+    + destruct (tc_append (st_heap st) es t) as [h1 es1].
+      destruct (IH _ _ _ _ _ _ _ H e He) as [Ho|Hn]; [|right; exact Hn]. cbn [st_cache] in Ho.
+      apply tcp_put_in in Ho as [->|Ho]; [right; cbn; repeat split | left; exact Ho].
+    + destruct (IH _ _ _ _ _ _ _ H e He) as [Ho|Hn]; [|right; exact Hn]. cbn [st_cache] in Ho.
+      apply tcp_put_in in Ho as [->|Ho]; [right; cbn; repeat split | left; exact Ho].
+Qed.
+
+Lemma tcp_transform_entries chk clip r a idx st vs es st' :
+  tc_transform_arg_gen T tf chk clip r a idx st = (vs, es, st') ->
+  forall e, In e (st_cache st') -> In e (st_cache st) \/ (e_in e = a_val a /\ tcp_same_slot e a idx).
+Proof.
+  unfold tc_transform_arg_gen. intros H e He.
+  destruct (r_multi r).
+  { destruct (tc_exec_multi T tf (r_ts r) (a_val a)). injection H as <- <- <-. left. exact He. }
+  destruct (r_ts r) as [|t0 ts0] eqn:Ets.
+  { injection H as <- <- <-. left. exact He. }
+  destruct (Nat.eqb (a_var a) tc_var_tx).
+  { destruct (exec (t0 :: ts0) (a_val a)). injection H as <- <- <-. left. exact He. }
+  destruct (tc_search chk (length (r_pids r)) (r_pids r) a idx (st_cache st)) as [[i e0]|].
+  - destruct (Nat.eqb (S i) (length (r_pids r))).
+    + injection H as <- <- <-. left. exact He.
+    + destruct (tc_fill T tf (S i) (skipn (S i) (t0 :: ts0)) (r_pids r) a idx (e_out e0) (tc_clip clip (e_errs e0)) st)
+        as [[v1 es1] st1] eqn:Ef.
+      injection H as <- <- <-. eapply tcp_fill_entries; eauto.
+  - destruct (tc_fill T tf 0 (t0 :: ts0) (r_pids r) a idx (a_val a) tc_nil_slice st) as [[v1 es1] st1] eqn:Ef.
+    injection H as <- <- <-. eapply tcp_fill_entries; eauto.
+Qed.
+
+(* transformArg with ANY setting of the input check is sound as long as an entry found in this
+   argument's slot was computed from this argument's value *)
+Theorem tc_transform_arg_gen_sound chk r a idx st :
+  tc_rule_wf T sem r -> tc_cache_inv T tf sem st ->
+  (chk = false -> forall e, In e (st_cache st) -> tcp_same_slot e a idx -> e_in e = a_val a) ->
+  forall vs es st', tc_transform_arg_gen T tf chk true r a idx st = (vs, es, st') ->
+  (vs, es) = tc_uncached T tf r a /\ tc_cache_inv T tf sem st'.
+Proof.
+  intros Hwf Hinv Hslot vs es st' H. pose proof Hwf as [Hlen Hsem].
+  unfold tc_transform_arg_gen, tc_uncached in *.
+  destruct (r_multi r).
+  { destruct (tc_exec_multi T tf (r_ts r) (a_val a)) as [vs0 es0]. injection H as <- <- <-. auto. }
+  destruct (r_ts r) as [|t0 ts0] eqn:Ets.
+  { injection H as <- <- <-. cbn. auto. }
+  rewrite <- Ets in *. clear Ets t0 ts0.
+  destruct (Nat.eqb (a_var a) tc_var_tx).
+  { destruct (exec (r_ts r) (a_val a)) as [v0 es0]. injection H as <- <- <-. auto. }
+  destruct (tc_search chk (length (r_pids r)) (r_pids r) a idx (st_cache st)) as [[i e]|] eqn:Es.
+  - apply tcp_search_some_gen in Es as (Hi & Hin & Hpid & Hsl & Hchk).
+    assert (Hinp : e_in e = a_val a).
+    { destruct chk; [apply Hchk; reflexivity | apply Hslot; auto]. }
+    destruct (Hinv e Hin) as (H1 & H2 & H3). rewrite Hpid, Hinp in H1, H2, H3.
+    rewrite Hlen in Hi. rewrite Hsem in H1, H2, H3 by exact Hi.
+    destruct (Nat.eqb (S i) (length (r_pids r))) eqn:Efull.
+    + apply Nat.eqb_eq in Efull. rewrite Hlen in Efull. injection H as <- <- <-.
+      rewrite Efull, firstn_all in H1, H2. rewrite H1, H2.
+      destruct (exec (r_ts r) (a_val a)); auto.
+    + destruct (tc_fill T tf (S i) (skipn (S i) (r_ts r)) (r_pids r) a idx (e_out e) (tc_clip true (e_errs e)) st)
+        as [[v1 es1] st1] eqn:Ef.
+      injection H as <- <- <-.
+      assert (Hfr : tc_frontier (st_heap st) (st_cache st) (tc_clip true (e_errs e))) by (left; cbn; lia).
+      assert (H2' : tc_read (st_heap st) (tc_clip true (e_errs e)) = snd (exec (firstn (S i) (r_ts r)) (a_val a))) by exact H2.
+      destruct (tcp_fill_sound r a idx Hwf _ (S i) (e_out e) (tc_clip true (e_errs e)) st eq_refl
+                  ltac:(lia) Hinv H1 H2' H3 Hfr _ _ _ Ef) as (Ev & Ee & Ei).
+      rewrite Ev, Ee. destruct (exec (r_ts r) (a_val a)); auto.
+  - destruct (tc_fill T tf 0 (r_ts r) (r_pids r) a idx (a_val a) tc_nil_slice st) as [[v1 es1] st1] eqn:Ef.
+    injection H as <- <- <-.
+    assert (Hfr : tc_frontier (st_heap st) (st_cache st) tc_nil_slice) by (left; cbn; lia).
+    destruct (tcp_fill_sound r a idx Hwf _ 0 (a_val a) tc_nil_slice st eq_refl
+                ltac:(lia) Hinv eq_refl eq_refl eq_refl Hfr _ _ _ Ef) as (Ev & Ee & Ei).
+    rewrite Ev, Ee. destruct (exec (r_ts r) (a_val a)); auto.
+Qed.
+
+(* "the slot identifies the value" for the variables whose check is skipped: sv gives the one
+   value every call of the phase has in a slot of a fixed variable *)
+Definition tc_slots_fixed (fixed : nat -> bool) (sv : nat -> nat -> nat -> bytes) (cs : list (tc_call T)) : Prop :=
+  Forall (fun c => fixed (a_var (c_arg c)) = true ->
+                   a_val (c_arg c) = sv (a_var (c_arg c)) (a_kid (c_arg c)) (c_idx c)) cs.
+
+Definition tc_slot_inv (fixed : nat -> bool) (sv : nat -> nat -> nat -> bytes) (st : tc_state T) : Prop :=
+  forall e, In e (st_cache st) -> fixed (k_var (e_key e)) = true ->
+    e_in e = sv (k_var (e_key e)) (k_kid (e_key e)) (k_idx (e_key e)).
+
+Lemma tc_eval_calls_fx_sound fixed sv : forall cs st,
+  tc_calls_wf cs -> tc_slots_fixed fixed sv cs -> tc_cache_inv T tf sem st -> tc_slot_inv fixed sv st ->
+  fst (tc_eval_calls_fx T tf fixed cs st) = tc_uncached_calls T tf cs /\
+  tc_cache_inv T tf sem (snd (tc_eval_calls_fx T tf fixed cs st)) /\
+  tc_slot_inv fixed sv (snd (tc_eval_calls_fx T tf fixed cs st)).
+Proof.
+  induction cs as [|c cs IH]; intros st Hwf Hfx Hinv Hsl; [cbn; auto|].
+  inversion Hwf as [|? ? Hc Hcs]; subst. inversion Hfx as [|? ? Hf Hfs]; subst.
+  cbn [tc_eval_calls_fx]. unfold tc_transform_arg_fx.
+  destruct (tc_transform_arg_gen T tf (negb (fixed (a_var (c_arg c)))) true (c_rule c) (c_arg c) (c_idx c) st)
+    as [[vs es] st1] eqn:E.
+  assert (Hslot : negb (fixed (a_var (c_arg c))) = false -> forall e, In e (st_cache st) ->
+                  tcp_same_slot e (c_arg c) (c_idx c) -> e_in e = a_val (c_arg c)).
+  { intros Hn e He (S1 & S2 & S3). apply negb_false_iff in Hn.
+    rewrite (Hsl e He) by (rewrite S3; exact Hn). rewrite S1, S2, S3. symmetry. apply Hf. exact Hn. }
+  destruct (tc_transform_arg_gen_sound _ _ _ _ _ Hc Hinv Hslot _ _ _ E) as [Eo Ei].
+  assert (Hsl1 : tc_slot_inv fixed sv st1).
+  { intros e He Hfe. destruct (tcp_transform_entries _ _ _ _ _ _ _ _ _ E e He) as [Ho|(Hin & S1 & S2 & S3)].
+    - apply Hsl; auto.
+    - rewrite Hin, S1, S2, S3. apply Hf. rewrite <- S3. exact Hfe. }
+  specialize (IH st1 Hcs Hfs Ei Hsl1).
+  destruct (tc_eval_calls_fx T tf fixed cs st1) as [outs st2]. cbn [fst snd] in *.
+  destruct IH as (IH1 & IH2 & IH3). split; [|split; assumption].
+  unfold tc_uncached_calls. cbn [map]. rewrite Eo, IH1. reflexivity.
+Qed.
+
+Lemma tc_eval_calls_fx_none : forall cs st,
+  tc_eval_calls_fx T tf tc_no_fixed cs st = tc_eval_calls T tf cs st.
+Proof.
+  induction cs as [|c cs IH]; intros st; [reflexivity|].
+  unfold tc_eval_calls in *. cbn [tc_eval_calls_fx tc_eval_calls_gen]. unfold tc_transform_arg_fx, tc_no_fixed at 1. cbn [negb].
+  destruct (tc_transform_arg_gen T tf true true (c_rule c) (c_arg c) (c_idx c) st) as [[vs es] st1].
+  rewrite IH. reflexivity.
+Qed.
+
+Definition tc_tx_wf (ps : list (tc_txphase T)) : Prop :=
+  Forall (fun p => tc_calls_wf (tc_phase_calls T p)) ps.
+
+(* the transaction as /repo evaluates it: whatever the variables contain in each phase and at
+   each rule, every rule sees its own list applied to the content at the moment it runs *)
+Theorem tc_eval_tx_sound : forall ps st, tc_tx_wf ps ->
+  fst (tc_eval_tx T tf ps st) = tc_uncached_tx T tf ps.
+Proof.
+  unfold tc_eval_tx. intros ps. generalize true at 2 as first.
+  induction ps as [|p ps IH]; intros first st Hwf; [reflexivity|].
+  inversion Hwf as [|? ? Hp Hps]; subst. cbn [tc_eval_tx_gen orb]. rewrite tc_eval_calls_fx_none.
+  destruct (tc_eval_calls_sound (tc_phase_calls T p) (tc_phase_start T st) Hp (tc_phase_start_inv st)) as [E1 E2].
+  destruct (tc_eval_calls T tf (tc_phase_calls T p) (tc_phase_start T st)) as [o st1]. cbn [fst snd] in *.
+  specialize (IH false st1 Hps). destruct (tc_eval_tx_gen T tf true tc_no_fixed false ps st1) as [os st2]. cbn [fst] in *.
+  unfold tc_uncached_tx in *. cbn [map]. rewrite E1, IH. reflexivity.
+Qed.
+
+(* site 1 of seed g alone: skipping the input check for variables whose slots hold one value
+   throughout a phase is sound BECAUSE the cache is emptied at the start of every phase *)
+Theorem tc_fixed_with_clearing_sound fixed : forall ps first st, tc_tx_wf ps ->
+  Forall (fun p => exists sv, tc_slots_fixed fixed sv (tc_phase_calls T p)) ps ->
+  fst (tc_eval_tx_gen T tf true fixed first ps st) = tc_uncached_tx T tf ps.
+Proof.
+  induction ps as [|p ps IH]; intros first st Hwf Hfx; [reflexivity|].
+  inversion Hwf as [|? ? Hp Hps]; subst. inversion Hfx as [|? ? [sv Hsv] Hfs]; subst.
+  cbn [tc_eval_tx_gen orb].
+  assert (Hs0 : tc_slot_inv fixed sv (tc_phase_start T st)) by (intros e []).
+  destruct (tc_eval_calls_fx_sound fixed sv _ _ Hp Hsv (tc_phase_start_inv st) Hs0) as (E1 & _ & _).
+  destruct (tc_eval_calls_fx T tf fixed (tc_phase_calls T p) (tc_phase_start T st)) as [o st1]. cbn [fst] in *.
+  specialize (IH false st1 Hps Hfs). destruct (tc_eval_tx_gen T tf true fixed false ps st1) as [os st2]. cbn [fst] in *.
+  unfold tc_uncached_tx in *. cbn [map]. rewrite E1, IH. reflexivity.
+Qed.
+
+(* site 2 of seed g alone: emptying the cache only in the first phase is sound BECAUSE every
+   lookup checks the recorded input *)
+Theorem tc_first_phase_clearing_sound : forall ps st, tc_tx_wf ps ->
+  fst (tc_eval_tx_gen T tf false tc_no_fixed true ps st) = tc_uncached_tx T tf ps.
+Proof.
+  assert (G : forall ps (first : bool) (st : tc_state T), tc_tx_wf ps -> tc_cache_inv T tf sem (if first then tc_phase_start T st else st) ->
+              fst (tc_eval_tx_gen T tf false tc_no_fixed first ps st) = tc_uncached_tx T tf ps).
+  { induction ps as [|p ps IH]; intros first st Hwf Hinv; [reflexivity|].
+    inversion Hwf as [|? ? Hp Hps]; subst. cbn [tc_eval_tx_gen orb]. rewrite tc_eval_calls_fx_none.
+    destruct (tc_eval_calls_sound (tc_phase_calls T p) _ Hp Hinv) as [E1 E2].
+    destruct (tc_eval_calls T tf (tc_phase_calls T p) (if first then tc_phase_start T st else st)) as [o st1]. cbn [fst snd] in *.
+    specialize (IH false st1 Hps E2). destruct (tc_eval_tx_gen T tf false tc_no_fixed false ps st1) as [os st2]. cbn [fst] in *.
+    unfold tc_uncached_tx in *. cbn [map]. rewrite E1, IH. reflexivity. }
+  intros ps st Hwf. apply G; [exact Hwf | apply tc_phase_start_inv].
+Qed.
+
+(* after a phase every entry of the cache was computed from a value some rule of THIS phase
+   started from (nothing survives the clearing) *)
+Theorem tc_phase_cache_fresh : forall cs st e,
+  In e (st_cache (snd (tc_eval_calls T tf cs st))) ->
+  In e (st_cache st) \/ exists c, In c cs /\ e_in e = a_val (c_arg c).
+Proof.
+  induction cs as [|c cs IH]; intros st e He; [left; exact He|].
+  unfold tc_eval_calls in *. cbn [tc_eval_calls_gen] in He.
+  destruct (tc_transform_arg_gen T tf true true (c_rule c) (c_arg c) (c_idx c) st) as [[vs es] st1] eqn:E.
+  specialize (IH st1 e). destruct (tc_eval_calls_gen T tf true true cs st1) as [outs st2]. cbn [snd] in *.
+  destruct (IH He) as [Ho|(c' & Hc' & Hv)].
+  - destruct (tcp_transform_entries _ _ _ _ _ _ _ _ _ E e Ho) as [Hold|(Hin & _)]; [left; exact Hold|].
+    right. exists c. split; [left; reflexivity | exact Hin].
+  - right. exists c'. split; [right; exact Hc' | exact Hv].
+Qed.
+
 End Sound.
 
 (* ------------------------------------------------------------------------------------- *)
@@ -386,6 +596,31 @@ Proof.
   split.
   - repeat constructor; cbn; intros k Hk;
       repeat (destruct k as [|k]; [reflexivity|]); lia.
+  - vm_compute. discriminate.
+Qed.
+
+(* seed g: the two relaxations together. REQUEST_BODY (variable 21, one slot) is empty while
+   phase 1 runs and holds the body in phase 2; within each phase its slot holds one value (the
+   guard of tc_fixed_with_clearing_sound holds), every lookup of the other variables is checked
+   (tc_first_phase_clearing_sound applies to them) - and the phase 2 rule gets lowercase("") *)
+Definition tcp_sem_g (id : nat) : list tid :=
+  match id with 1 => [TLowercase] | 2 => [TLowercase; TTrim] | _ => [] end.
+
+Theorem tc_first_phase_clearing_with_fixed_refuted :
+  exists ps : list (tc_txphase tid),
+    tc_tx_wf tid tcp_sem_g ps /\
+    Forall (fun p => exists sv, tc_slots_fixed tid tc_body_fixed sv (tc_phase_calls tid p)) ps /\
+    fst (tc_eval_tx_gen tid tcp_tf_builtin false tc_body_fixed true ps tc_empty) <> tc_uncached_tx tid tcp_tf_builtin ps.
+Proof.
+  set (r1 := mk_txrule (mk_rule [TLowercase] [1] false) [54; 21]).
+  set (r2 := mk_txrule (mk_rule [TLowercase; TTrim] [1; 2] false) [21]).
+  set (c1 := (fun v : nat => if Nat.eqb v 21 then [(0, [])] else []) : tc_content).
+  set (c2 := (fun v : nat => if Nat.eqb v 21 then [(0, str " Q=ABC "%string)] else []) : tc_content).
+  exists [[(r1, c1)]; [(r2, c2)]].
+  split; [|split].
+  - repeat constructor; cbn; intros k Hk; repeat (destruct k as [|k]; [reflexivity|]); lia.
+  - constructor; [exists (fun _ _ _ => []) | constructor; [exists (fun _ _ _ => str " Q=ABC "%string) | constructor]];
+      repeat constructor.
   - vm_compute. discriminate.
 Qed.
 
